@@ -44,7 +44,8 @@ Definition push_variant (b : body) (i : item) : body * bool :=
     ({| bbe := bbe b; bsig := bsig b ++ [c_v]; bbuf := mbuf c; bfds := mfds c |}, ok)).
 
 Definition push_old_inner (b : body) (v : val) : body * bool :=
-  let '(c, ok) := marshal_p (bbe b) 0 v {| mbuf := bbuf b; mfds := bfds b |} in
+  (* crate::wire::marshal::container::marshal_param(p, &mut ctx)?; p.sig().to_str(..) *)
+  let '(c, ok) := marshal_param_top (bbe b) v {| mbuf := bbuf b; mfds := bfds b |} in
   if ok then ({| bbe := bbe b; bsig := bsig b ++ to_str (ty_of v); bbuf := mbuf c; bfds := mfds c |}, true)
   else ({| bbe := bbe b; bsig := bsig b; bbuf := mbuf c; bfds := mfds c |}, false).
 Definition push_old_param (b : body) (v : val) : body * bool := helper b (fun b => push_old_inner b v).
